@@ -1,2 +1,52 @@
--- driver stub (replaced when the model for C11 is built)
-def main : IO Unit := pure ()
+/-
+  Driver for C11: the one-column subdivision model (`Model/Refine.lean`).
+    refine <nn> <sides,|->        sub-columns `refine` builds for a parent with these refined sides
+    split <nn>                    the two columns of `split_column`, for each of the four split nodes
+    triangulate <nn>
+    decompose <nn> <straight,|->
+  reply: sub-columns separated by `|`, vertices `c<i>` (corner), `m<i>_<j>` (mid-side node), `x` (centre)
+-/
+import PyTough.Model.Refine
+import PyTough.Py.Proto
+open Py Model.Refine Gen.RefineTables
+
+def showVert : Vert → String
+  | .corner i => s!"c{i}"
+  | .mid i j => s!"m{i}_{j}"
+  | .centre => "x"
+
+def showPolys (ps : List Poly) : String :=
+  "|".intercalate (ps.map fun p => " ".intercalate (p.map showVert))
+
+def parseList (s : String) : List Nat :=
+  if s = "-" then [] else (s.splitOn ",").filterMap (·.toNat?)
+
+def handle : List String → String
+  | ["refine", nn, sides] =>
+    match nn.toNat? with
+    | some n =>
+      (match transitionType n (parseList sides) with
+       | none => "exc TypeError"
+       | some (nref, istart, irange) =>
+         match tableEntry n nref irange with
+         | none => "exc KeyError"
+         | some e => showPolys (e.map (·.map (shiftVert n istart))))
+    | none => "bad"
+  | ["split", nn] =>
+    if nn = "4" then " ; ".intercalate ((List.range 4).map fun i0 => showPolys [splitOld i0, splitNewPoly i0])
+    else "none"
+  | ["triangulate", nn] =>
+    match nn.toNat? with
+    | some n => showPolys (triangulate n)
+    | none => "bad"
+  | ["decompose", nn, st] =>
+    match nn.toNat? with
+    | some n =>
+      (match decompose n (parseList st) with
+       | none => "none"
+       | some (.error e) => "exc " ++ e.toString
+       | some (.ok ps) => showPolys ps)
+    | none => "bad"
+  | _ => "bad-op"
+
+def main : IO Unit := serve handle
